@@ -28,6 +28,10 @@ func ruleC15(r *Report) {
 	r.Rule("C15.units", "the unit tables of the xsd:duration writer and reader agree: the reader scales the submatch that the pattern ties to each designator (Y, M, D / H, M, S) by that designator's unit and adds it to the result, the writer emits (d % higher unit) / unit for H, M, S and nine fraction digits of d % second, in integer arithmetic on |d|, with the sign carried by the (-?) group", 11)
 	r.Rule("C15.field-local", "the endpoint location normaliser used after decoding returns its argument or the empty string, and each call site stores the result back into the very field the argument was read from", 2)
 	safely(r, func() { checkFieldLocal(r, p) })
+	// "metadata the library generates re-parses": every location url.URL.String() can produce for a standard binding
+	// passes the check made on parsing - the checker parses the URL and compares the *parsed* scheme (C14.endpoint, borrowed)
+	r.Rule("C15.endpoint-check", "the endpoint check made on parsing accepts what the generators emit: for the five standard bindings the location is judged by url.Parse and the parsed scheme (http/https), and returned unchanged (C14.endpoint, borrowed)", 4)
+	r.borrow("C14.endpoint", "C15.endpoint-check", func() { checkEndpointTypes(r, p) })
 	r.Rule("C15.tags", "in every struct type reachable from EntityDescriptor/EntitiesDescriptor all fields are exported, none is tagged xml:\"-\", and no two fields of one struct map to the same XML name and kind (encoding/xml silently drops conflicting fields)", 13)
 	safely(r, func() { checkXMLTags(r, p) })
 	checkAliasPairs(r, p)
